@@ -3,6 +3,7 @@ package main
 import (
 	"fmt"
 	"go/types"
+	"strings"
 
 	"golang.org/x/tools/go/ssa"
 )
@@ -169,10 +170,26 @@ func (in *Interp) harnessAPI(fn *ssa.Function, a []Value) (Value, bool) {
 		return nil, true
 	case "vSharedWrites":
 		n := 0
-		for _, c := range in.ex.shareWrites {
+		for _, c := range in.pathShared {
 			n += c
 		}
 		return I64(int64(n)), true
+	case "vSharedWritesTo":
+		sub, _ := a[0].(StringV).concrete()
+		n := 0
+		for k, c := range in.pathShared {
+			if strings.Contains(k, sub) {
+				n += c
+			}
+		}
+		return I64(int64(n)), true
+	case "vPar":
+		// the engine has no interleavings: run the two calls one after the other
+		in.callFn(a[0].(*FuncV), nil)
+		in.callFn(a[1].(*FuncV), nil)
+		return nil, true
+	case "vNativeRepeat":
+		return I64(1), true
 	case "vMapOrderSym":
 		in.mapOrderSym = term(a[0]).cv == 1
 		return nil, true
